@@ -28,7 +28,7 @@ fn kname(i: u8) -> &'static str {
     match i {
         0 => "k",
         1 => "",
-        _ => "\u{e9}k",
+        _ => "\u{e9}",
     }
 }
 
@@ -48,22 +48,54 @@ fn ks(nm: u8, n: u8, i0: u8, i1: u8, i2: u8, maxn: u8) -> KS {
     KS { nm, n, i: [i0, i1, i2] }
 }
 
-fn static_slice(s: KS) -> &'static [Label] {
+/// Builds the all-static key described by `s` (the cheapest construction; hash not yet memoised) and hands it to `f`.
+/// The dispatch on the label count happens OUTSIDE `f`, so inside `f` the count is a constant for CBMC (the sort loops
+/// of key.rs then unroll exactly instead of up to the unwinding bound).
+fn with_key<R>(s: KS, f: impl FnOnce(Key) -> R) -> R {
+    let nm = kname(s.nm);
     match s.n {
-        0 => &[],
-        1 => Box::leak(Box::new([lab(s.i[0])])),
-        2 => Box::leak(Box::new([lab(s.i[0]), lab(s.i[1])])),
-        _ => Box::leak(Box::new([lab(s.i[0]), lab(s.i[1]), lab(s.i[2])])),
+        0 => f(Key::from_static_name(nm)),
+        1 => f(Key::from_static_parts(nm, Box::leak(Box::new([lab(s.i[0])])))),
+        2 => f(Key::from_static_parts(nm, Box::leak(Box::new([lab(s.i[0]), lab(s.i[1])])))),
+        _ => {
+            // (the 3-label arm is only instantiated by the n = 3 harnesses: `ks(.., maxn)` pins i2 == 0 otherwise)
+            assert!(s.n == 3);
+            with_key3(s, f)
+        }
     }
 }
-/// the cheapest construction: all-static key (hash not yet memoised)
-fn skey(s: KS) -> Key {
-    Key::from_static_parts(kname(s.nm), static_slice(s))
+fn with_key3<R>(s: KS, f: impl FnOnce(Key) -> R) -> R {
+    f(Key::from_static_parts(kname(s.nm), Box::leak(Box::new([lab(s.i[0]), lab(s.i[1]), lab(s.i[2])]))))
+}
+/// n <= 2 only
+fn with_key2<R>(s: KS, f: impl FnOnce(Key) -> R) -> R {
+    let nm = kname(s.nm);
+    match s.n {
+        0 => f(Key::from_static_name(nm)),
+        1 => f(Key::from_static_parts(nm, Box::leak(Box::new([lab(s.i[0])])))),
+        _ => {
+            assert!(s.n == 2);
+            f(Key::from_static_parts(nm, Box::leak(Box::new([lab(s.i[0]), lab(s.i[1])]))))
+        }
+    }
+}
+/// two keys with at most 2 labels each
+fn with_keys2<R>(a: KS, b: KS, f: impl FnOnce(Key, Key) -> R) -> R {
+    with_key2(a, |ka| with_key2(b, |kb| f(ka, kb)))
+}
+/// two keys with exactly 3 labels each
+fn with_keys3<R>(a: KS, b: KS, f: impl FnOnce(Key, Key) -> R) -> R {
+    assert!(a.n == 3 && b.n == 3);
+    with_key3(a, |ka| with_key3(b, |kb| f(ka, kb)))
 }
 
 // ------------------------------------------------------------------------------------------------ recording hasher
 pub const RCAP: usize = 40;
-/// Records every `write*` call made by `Hash for Key`: (byte length, bytes as little-endian u64).
+macro_rules! all_slots {
+    ($f:expr) => { all_slots!(@ $f; 0 1 2 3 4 5 6 7 8 9 10 11 12 13 14 15 16 17 18 19 20 21 22 23 24 25 26 27 28 29 30 31 32 33 34 35 36 37 38 39) };
+    (@ $f:expr; $($i:literal)*) => { true $(&& $f($i))* };
+}
+/// Records every `write*` call made by `Hash for Key`: (byte length, bytes as little-endian u64).  Loop-free on purpose.
 pub struct Rec {
     n: usize,
     len: [u8; RCAP],
@@ -79,45 +111,35 @@ impl Rec {
         self.val[self.n] = val;
         self.n += 1;
     }
+    /// identical sequence of write calls (unused slots are zero on both sides)
     fn same(&self, o: &Rec) -> bool {
-        if self.n != o.n {
-            return false;
-        }
-        let mut i = 0;
-        while i < RCAP {
-            if i < self.n && (self.len[i] != o.len[i] || self.val[i] != o.val[i]) {
-                return false;
-            }
-            i += 1;
-        }
-        true
+        let f = |i: usize| self.len[i] == o.len[i] && self.val[i] == o.val[i];
+        self.n == o.n && all_slots!(@ f; 0 1 2 3 4 5 6 7 8 9 10 11 12 13 14 15 16 17 18 19 20 21 22 23 24 25 26 27 28 29 30 31 32 33 34 35 36 37 38 39)
     }
     /// cheap (solver-friendly) deterministic digest of the recorded stream, used where `generate_key_hash` is stubbed
     fn fold(&self) -> u64 {
-        let mut h: u64 = 0x9e37_79b9_7f4a_7c15;
-        let mut i = 0;
-        while i < RCAP {
-            if i < self.n {
-                h = h.rotate_left(9) ^ self.val[i] ^ ((self.len[i] as u64) << 56) ^ (i as u64);
-            }
-            i += 1;
-        }
-        h ^ (self.n as u64)
+        let mut h: u64 = 0x9e37_79b9_7f4a_7c15 ^ (self.n as u64);
+        let mut f = |i: usize| {
+            h = h.rotate_left(9) ^ self.val[i] ^ ((self.len[i] as u64) << 56);
+            true
+        };
+        let _ = all_slots!(@ f; 0 1 2 3 4 5 6 7 8 9 10 11 12 13 14 15 16 17 18 19 20 21 22 23 24 25 26 27 28 29 30 31 32 33 34 35 36 37 38 39);
+        h
     }
 }
 impl Hasher for Rec {
     fn finish(&self) -> u64 {
-        0
+        self.fold()
     }
     fn write(&mut self, bytes: &[u8]) {
-        assert!(bytes.len() <= 8, "recorder: table strings are at most 8 bytes");
+        let n = bytes.len();
+        assert!(n <= 4, "recorder: table strings are at most 4 bytes");
         let mut v = 0u64;
-        let mut i = 0;
-        while i < bytes.len() {
-            v |= (bytes[i] as u64) << (8 * i);
-            i += 1;
-        }
-        self.push(bytes.len(), v);
+        if n > 0 { v |= bytes[0] as u64; }
+        if n > 1 { v |= (bytes[1] as u64) << 8; }
+        if n > 2 { v |= (bytes[2] as u64) << 16; }
+        if n > 3 { v |= (bytes[3] as u64) << 24; }
+        self.push(n, v);
     }
     fn write_u8(&mut self, i: u8) {
         self.push(1, i as u64); // == default write(&[i])
@@ -133,57 +155,572 @@ fn stream(k: &Key) -> Rec {
 }
 
 // ------------------------------------------------------------------------------------------------ obligations
+fn ks2(nm: u8, n: u8, i0: u8, i1: u8) -> KS {
+    ks(nm, n, i0, i1, 0, 2)
+}
+fn ks3(nm: u8, i0: u8, i1: u8, i2: u8) -> KS {
+    ks(nm, 3, i0, i1, i2, 3)
+}
+fn le(o: cmp::Ordering) -> bool {
+    o != cmp::Ordering::Greater
+}
+
 /// a == b  <=>  a.cmp(b) == Equal           (statement, first clause)
-fn check_eq_iff_cmp(a: KS, b: KS) {
-    let (ka, kb) = (skey(a), skey(b));
+fn check_eq_iff_cmp(a: KS, b: KS, ka: Key, kb: Key) {
     let eq = ka == kb;
     let c = ka.cmp(&kb);
-    kani::cover!(eq && a.n == 2 && a.i[0] != a.i[1]);
+    kani::cover!(eq && a.n >= 2 && a.i[0] != a.i[1]);
     kani::cover!(!eq && a.n == b.n && a.nm == b.nm && a.n > 0);
     assert!(eq == (c == cmp::Ordering::Equal), "a == b exactly when a.cmp(b) == Equal");
     assert!(ka.partial_cmp(&kb) == Some(c));
 }
-
 pub fn c03_eq_iff_cmp_body(nma: u8, na: u8, a0: u8, a1: u8, nmb: u8, nb: u8, b0: u8, b1: u8) {
-    check_eq_iff_cmp(ks(nma, na, a0, a1, 0, 2), ks(nmb, nb, b0, b1, 0, 2));
+    let (a, b) = (ks2(nma, na, a0, a1), ks2(nmb, nb, b0, b1));
+    with_keys2(a, b, |ka, kb| check_eq_iff_cmp(a, b, ka, kb))
 }
 #[cfg(kani)]
 #[kani::proof]
-#[kani::unwind(12)]
+#[kani::unwind(3)]
 fn c03_eq_iff_cmp() {
     c03_eq_iff_cmp_body(kani::any(), kani::any(), kani::any(), kani::any(), kani::any(), kani::any(), kani::any(), kani::any());
 }
+pub fn c03_eq_iff_cmp_n3_body(nma: u8, a0: u8, a1: u8, a2: u8, nmb: u8, b0: u8, b1: u8, b2: u8) {
+    let (a, b) = (ks3(nma, a0, a1, a2), ks3(nmb, b0, b1, b2));
+    with_keys3(a, b, |ka, kb| check_eq_iff_cmp(a, b, ka, kb))
+}
+#[cfg(kani)]
+#[kani::proof]
+#[kani::unwind(4)]
+fn c03_eq_iff_cmp_n3() {
+    c03_eq_iff_cmp_n3_body(kani::any(), kani::any(), kani::any(), kani::any(), kani::any(), kani::any(), kani::any(), kani::any());
+}
 
-/// a == b  =>  identical Hash stream
-fn check_eq_hash(a: KS, b: KS) {
-    let (ka, kb) = (skey(a), skey(b));
+/// a == b  =>  identical Hash stream (sequence of Hasher::write* calls)
+fn check_eq_hash(a: KS, b: KS, ka: Key, kb: Key) {
     let eq = ka == kb;
-    kani::cover!(eq && a.n == 2 && a.i[0] != b.i[0]);
+    kani::cover!(eq && a.n >= 2 && a.i[0] != b.i[0]);
     kani::cover!(!eq);
     if eq {
         assert!(stream(&ka).same(&stream(&kb)), "a == b implies identical Hash output");
     }
 }
 pub fn c03_eq_hash_body(nma: u8, na: u8, a0: u8, a1: u8, nmb: u8, nb: u8, b0: u8, b1: u8) {
-    check_eq_hash(ks(nma, na, a0, a1, 0, 2), ks(nmb, nb, b0, b1, 0, 2));
+    let (a, b) = (ks2(nma, na, a0, a1), ks2(nmb, nb, b0, b1));
+    with_keys2(a, b, |ka, kb| check_eq_hash(a, b, ka, kb))
 }
 #[cfg(kani)]
 #[kani::proof]
-#[kani::unwind(12)]
+#[kani::unwind(3)]
 fn c03_eq_hash() {
     c03_eq_hash_body(kani::any(), kani::any(), kani::any(), kani::any(), kani::any(), kani::any(), kani::any(), kani::any());
 }
-
-/// probe: real get_hash on symbolic-choice keys
-pub fn c03_probe_gethash_body(nma: u8, na: u8, a0: u8, a1: u8) {
-    let a = ks(nma, na, a0, a1, 0, 2);
-    let ka = skey(a);
-    let kb = skey(a);
-    assert!(ka.get_hash() == kb.get_hash());
+pub fn c03_eq_hash_n3_body(nma: u8, a0: u8, a1: u8, a2: u8, nmb: u8, b0: u8, b1: u8, b2: u8) {
+    let (a, b) = (ks3(nma, a0, a1, a2), ks3(nmb, b0, b1, b2));
+    with_keys3(a, b, |ka, kb| check_eq_hash(a, b, ka, kb))
 }
 #[cfg(kani)]
 #[kani::proof]
-#[kani::unwind(12)]
-fn c03_probe_gethash() {
-    c03_probe_gethash_body(kani::any(), kani::any(), kani::any(), kani::any());
+#[kani::unwind(4)]
+fn c03_eq_hash_n3() {
+    c03_eq_hash_n3_body(kani::any(), kani::any(), kani::any(), kani::any(), kani::any(), kani::any(), kani::any(), kani::any());
+}
+
+/// reflexive: a == a, a.cmp(a) == Equal, Hash stream reproducible (single key, n <= 3)
+pub fn c03_reflexive_body(nm: u8, n: u8, i0: u8, i1: u8, i2: u8) {
+    let a = ks(nm, n, i0, i1, i2, 3);
+    with_key(a, |ka| {
+        assert!(ka == ka, "reflexive");
+        assert!(ka.cmp(&ka) == cmp::Ordering::Equal);
+        assert!(stream(&ka).same(&stream(&ka)), "Hash is a function of the key");
+        kani::cover!(a.n == 3 && a.i[0] == a.i[2]);
+    })
+}
+#[cfg(kani)]
+#[kani::proof]
+#[kani::unwind(4)]
+fn c03_reflexive() {
+    c03_reflexive_body(kani::any(), kani::any(), kani::any(), kani::any(), kani::any());
+}
+
+/// equality symmetric; cmp dual (a.cmp(b) == b.cmp(a).reverse()) -- totality of the order
+fn check_symmetry(a: KS, b: KS, ka: Key, kb: Key) {
+    assert!((ka == kb) == (kb == ka), "symmetric");
+    assert!(ka.cmp(&kb) == kb.cmp(&ka).reverse(), "cmp is dual");
+    kani::cover!(ka.cmp(&kb) == cmp::Ordering::Less && a.n >= 2 && b.n >= 2 && a.nm == b.nm);
+    kani::cover!(ka == kb && a.n >= 2 && a.i[0] != b.i[0]);
+}
+pub fn c03_symmetry_body(nma: u8, na: u8, a0: u8, a1: u8, nmb: u8, nb: u8, b0: u8, b1: u8) {
+    let (a, b) = (ks2(nma, na, a0, a1), ks2(nmb, nb, b0, b1));
+    with_keys2(a, b, |ka, kb| check_symmetry(a, b, ka, kb))
+}
+#[cfg(kani)]
+#[kani::proof]
+#[kani::unwind(3)]
+fn c03_symmetry() {
+    c03_symmetry_body(kani::any(), kani::any(), kani::any(), kani::any(), kani::any(), kani::any(), kani::any(), kani::any());
+}
+pub fn c03_symmetry_n3_body(nma: u8, a0: u8, a1: u8, a2: u8, nmb: u8, b0: u8, b1: u8, b2: u8) {
+    let (a, b) = (ks3(nma, a0, a1, a2), ks3(nmb, b0, b1, b2));
+    with_keys3(a, b, |ka, kb| check_symmetry(a, b, ka, kb))
+}
+#[cfg(kani)]
+#[kani::proof]
+#[kani::unwind(4)]
+fn c03_symmetry_n3() {
+    c03_symmetry_n3_body(kani::any(), kani::any(), kani::any(), kani::any(), kani::any(), kani::any(), kani::any(), kani::any());
+}
+
+/// triples: == transitive, <= transitive, antisymmetric (a <= b and b <= a  =>  a == b)
+fn check_triple(ka: &Key, kb: &Key, kc: &Key) {
+    let (ab, bc, ac) = (ka.cmp(kb), kb.cmp(kc), ka.cmp(kc));
+    if le(ab) && le(bc) {
+        assert!(le(ac), "cmp is transitive");
+    }
+    if ka == kb && kb == kc {
+        assert!(ka == kc, "== is transitive");
+    }
+    if le(ab) && le(kb.cmp(ka)) {
+        assert!(ka == kb, "cmp is antisymmetric with respect to ==");
+    }
+    kani::cover!(ab == cmp::Ordering::Less && bc == cmp::Ordering::Less);
+    kani::cover!(ka == kb && kb == kc);
+}
+pub fn c03_order_triples_body(nm: u8, a0: u8, a1: u8, b0: u8, b1: u8, c0: u8, c1: u8) {
+    // exactly two labels each and one shared name (the arm with the special cases); names / other counts: see
+    // c03_order_triples_names.  Keeps three 2-label keys affordable.
+    let (a, b, c) = (ks2(nm, 2, a0, a1), ks2(nm, 2, b0, b1), ks2(nm, 2, c0, c1));
+    with_key2(a, |ka| with_key2(b, |kb| with_key2(c, |kc| check_triple(&ka, &kb, &kc))))
+}
+#[cfg(kani)]
+#[kani::proof]
+#[kani::unwind(3)]
+fn c03_order_triples() {
+    c03_order_triples_body(kani::any(), kani::any(), kani::any(), kani::any(), kani::any(), kani::any(), kani::any());
+}
+/// triples with differing names and at most one label (names take part in the order first)
+pub fn c03_order_triples_names_body(nma: u8, na: u8, a0: u8, nmb: u8, nb: u8, b0: u8, nmc: u8, nc: u8, c0: u8) {
+    kani::assume(na <= 1 && nb <= 1 && nc <= 1);
+    let (a, b, c) = (ks2(nma, na, a0, 0), ks2(nmb, nb, b0, 0), ks2(nmc, nc, c0, 0));
+    with_key2(a, |ka| with_key2(b, |kb| with_key2(c, |kc| check_triple(&ka, &kb, &kc))))
+}
+#[cfg(kani)]
+#[kani::proof]
+#[kani::unwind(3)]
+fn c03_order_triples_names() {
+    c03_order_triples_names_body(kani::any(), kani::any(), kani::any(), kani::any(), kani::any(), kani::any(), kani::any(), kani::any(), kani::any());
+}
+
+/// label-order independence: label NAMES pairwise distinct => any permutation of the labels gives an equal key
+fn name_class(i: u8) -> u8 {
+    match i {
+        0 | 1 => 0, // "a"
+        2 => 1,     // "b"
+        3 => 2,     // ""
+        _ => 3,     // "é"
+    }
+}
+fn check_same_key(ka: &Key, kb: &Key) {
+    assert!(ka == kb && kb == ka, "equal");
+    assert!(ka.cmp(kb) == cmp::Ordering::Equal && kb.cmp(ka) == cmp::Ordering::Equal, "cmp Equal");
+    assert!(stream(ka).same(&stream(kb)), "identical Hash output");
+}
+pub fn c03_label_order_body(nm: u8, i0: u8, i1: u8) {
+    let a = ks2(nm, 2, i0, i1);
+    kani::assume(name_class(i0) != name_class(i1));
+    let b = KS { nm, n: 2, i: [i1, i0, 0] };
+    with_keys2(a, b, |ka, kb| check_same_key(&ka, &kb));
+    kani::cover!(i0 == 4 && i1 == 3);
+}
+#[cfg(kani)]
+#[kani::proof]
+#[kani::unwind(3)]
+fn c03_label_order() {
+    c03_label_order_body(kani::any(), kani::any(), kani::any());
+}
+pub fn c03_label_order_n3_body(nm: u8, i0: u8, i1: u8, i2: u8, perm: u8) {
+    let a = ks3(nm, i0, i1, i2);
+    kani::assume(name_class(i0) != name_class(i1) && name_class(i0) != name_class(i2) && name_class(i1) != name_class(i2));
+    kani::assume(perm < 5);
+    let p: [u8; 3] = match perm {
+        0 => [i0, i2, i1],
+        1 => [i1, i0, i2],
+        2 => [i1, i2, i0],
+        3 => [i2, i0, i1],
+        _ => [i2, i1, i0],
+    };
+    let b = KS { nm, n: 3, i: p };
+    with_keys3(a, b, |ka, kb| check_same_key(&ka, &kb));
+    kani::cover!(perm == 2 && i0 == 4);
+}
+#[cfg(kani)]
+#[kani::proof]
+#[kani::unwind(4)]
+fn c03_label_order_n3() {
+    c03_label_order_n3_body(kani::any(), kani::any(), kani::any(), kani::any(), kani::any());
+}
+
+// ------------------------------------------------------------------------------------------------ the n >= 8 (Vec) arms
+// 8 labels: six fixed ones with pairwise distinct names plus two slots drawn from {a=1, a=2, b=1}; the second key is the
+// same kind of list rotated by a symbolic amount.
+fn lab8(slot: u8) -> Label {
+    match slot {
+        0 => Label::from_static_parts("a", "1"),
+        1 => Label::from_static_parts("a", "2"),
+        _ => Label::from_static_parts("b", "1"),
+    }
+}
+fn fixed8(j: u8) -> Label {
+    match j {
+        0 => Label::from_static_parts("c", "1"),
+        1 => Label::from_static_parts("", ""),
+        2 => Label::from_static_parts("d", "1"),
+        3 => Label::from_static_parts("\u{e9}", "\u{e9}"),
+        4 => Label::from_static_parts("e", "1"),
+        _ => Label::from_static_parts("f", "1"),
+    }
+}
+/// element k of the list [s0, fixed0, fixed1, s1, fixed2..fixed5] rotated left by r
+fn elem8(s0: u8, s1: u8, r: u8, k: u8) -> Label {
+    let p = (k + r) % 8;
+    match p {
+        0 => lab8(s0),
+        3 => lab8(s1),
+        1 | 2 => fixed8(p - 1),
+        _ => fixed8(p - 2),
+    }
+}
+fn key8(s0: u8, s1: u8, r: u8) -> Key {
+    let l: [Label; 8] = [
+        elem8(s0, s1, r, 0), elem8(s0, s1, r, 1), elem8(s0, s1, r, 2), elem8(s0, s1, r, 3),
+        elem8(s0, s1, r, 4), elem8(s0, s1, r, 5), elem8(s0, s1, r, 6), elem8(s0, s1, r, 7),
+    ];
+    Key::from_static_parts("k", Box::leak(Box::new(l)))
+}
+pub fn c03_vec_path_n8_body(s0: u8, s1: u8, t0: u8, t1: u8, r: u8) {
+    kani::assume(s0 < 3 && s1 < 3 && t0 < 3 && t1 < 3 && r < 8);
+    let (ka, kb) = (key8(s0, s1, 0), key8(t0, t1, r));
+    let eq = ka == kb;
+    assert!(eq == (ka.cmp(&kb) == cmp::Ordering::Equal), "a == b exactly when a.cmp(b) == Equal");
+    assert!(ka.cmp(&kb) == kb.cmp(&ka).reverse());
+    if eq {
+        assert!(stream(&ka).same(&stream(&kb)), "a == b implies identical Hash output");
+    }
+    // pairwise distinct names + same multiset => equal whatever the rotation / slot order
+    let distinct = (s0 == 2) != (s1 == 2);
+    if distinct && ((s0 == t0 && s1 == t1) || (s0 == t1 && s1 == t0)) {
+        assert!(eq, "label order does not matter when names are pairwise distinct");
+    }
+    kani::cover!(eq && r == 5 && s0 != t0);
+    kani::cover!(!eq && s0 == t1 && s1 == t0 && s0 != s1); // repeated name, different relative order
+}
+#[cfg(kani)]
+#[kani::proof]
+#[kani::unwind(10)]
+fn c03_vec_path_n8() {
+    c03_vec_path_n8_body(kani::any(), kani::any(), kani::any(), kani::any(), kani::any());
+}
+
+// ------------------------------------------------------------------------------------------------ real hasher, concrete keys
+/// With the real KeyHasher (AHash) on CONCRETE keys: get_hash() is the same on every construction path, is stable,
+/// equals `generate_key_hash` and equals hashing through std `Hash` with a fresh KeyHasher (what Hashable relies on).
+fn real_hash_paths<const N: usize>(name: &'static str, parts: [(&'static str, &'static str); N]) {
+    let mk = || {
+        let mut v = Vec::with_capacity(N);
+        for j in 0..N {
+            v.push(Label::new(String::from(parts[j].0), String::from(parts[j].1)));
+        }
+        v
+    };
+    let st: Vec<Label> = {
+        let mut v = Vec::with_capacity(N);
+        for j in 0..N {
+            v.push(Label::from_static_parts(parts[j].0, parts[j].1));
+        }
+        v
+    };
+    let k_static = Key::from_static_parts(name, Box::leak(st.into_boxed_slice()));
+    let k_owned = Key::from_parts(String::from(name), mk());
+    let k_extra = Key::from_name(name).with_extra_labels(mk());
+    let k_rev = {
+        let mut v = mk();
+        v.reverse();
+        Key::from_parts(name, v)
+    };
+    let h = k_static.get_hash();
+    assert!(h == generate_key_hash(&k_static.name, &k_static.labels));
+    assert!(k_static.get_hash() == h && k_static.clone().get_hash() == h);
+    assert!(k_owned.get_hash() == h && k_extra.get_hash() == h && k_owned.clone().get_hash() == h);
+    assert!(k_rev.get_hash() == h, "distinct names: order independent");
+    let mut kh = KeyHasher::default();
+    k_owned.hash(&mut kh);
+    assert!(kh.finish() == h);
+}
+pub fn c03_get_hash_real_body(which: u8) {
+    kani::assume(which < 3);
+    match which {
+        0 => real_hash_paths::<0>("k", []),
+        1 => real_hash_paths::<1>("", [("a", "1")]),
+        _ => real_hash_paths::<2>("\u{e9}", [("b", "1"), ("a", "2")]),
+    }
+}
+#[cfg(kani)]
+#[kani::proof]
+#[kani::unwind(20)]
+fn c03_get_hash_real() {
+    c03_get_hash_real_body(kani::any());
+}
+
+// ------------------------------------------------------------------------------------------------ construction paths
+// Every constructor that goes through `Key::builder` runs the real KeyHasher (AHash), which CBMC cannot execute on
+// symbolic data (measured: > 12 GB).  These harnesses therefore replace `generate_key_hash` by the SAME function with
+// the hasher type swapped for the recording hasher (`key_hasher_impl` is generic in the hasher).
+#[cfg(kani)]
+pub mod stubbed {
+    use super::*;
+
+    pub fn gkh_rec(name: &KeyName, labels: &Cow<'static, [Label]>) -> u64 {
+        let mut r = Rec::new();
+        key_hasher_impl(&mut r, name, labels);
+        r.finish()
+    }
+    fn owned_name(nm: u8) -> String {
+        match nm {
+            0 => String::from("k"),
+            1 => String::new(),
+            _ => String::from("\u{e9}"),
+        }
+    }
+    fn arc_name(nm: u8) -> Arc<str> {
+        match nm {
+            0 => Arc::from("k"),
+            1 => Arc::from(""),
+            _ => Arc::from("\u{e9}"),
+        }
+    }
+    // literal per arm: every allocation has a concrete size
+    fn owned_lab(i: u8) -> Label {
+        match i {
+            0 => Label::new(String::from("a"), String::from("1")),
+            1 => Label::new(String::from("a"), String::from("2")),
+            2 => Label::new(String::from("b"), String::from("1")),
+            3 => Label::new(String::new(), String::new()),
+            _ => Label::new(String::from("\u{e9}"), String::from("\u{e9}")),
+        }
+    }
+    fn arc_lab(i: u8) -> Label {
+        match i {
+            0 => Label::new(Arc::<str>::from("a"), Arc::<str>::from("1")),
+            1 => Label::new(Arc::<str>::from("a"), Arc::<str>::from("2")),
+            2 => Label::new(Arc::<str>::from("b"), Arc::<str>::from("1")),
+            3 => Label::new(Arc::<str>::from(""), Arc::<str>::from("")),
+            _ => Label::new(Arc::<str>::from("\u{e9}"), Arc::<str>::from("\u{e9}")),
+        }
+    }
+    fn vec_of<const N: usize>(idx: [u8; N], mode: u8, from: usize, to: usize) -> Vec<Label> {
+        let mut v = Vec::new();
+        let mut j = from;
+        while j < to {
+            v.push(match mode {
+                0 => lab(idx[j]),
+                1 => owned_lab(idx[j]),
+                _ => arc_lab(idx[j]),
+            });
+            j += 1;
+        }
+        v
+    }
+    fn static_of<const N: usize>(idx: [u8; N]) -> &'static [Label] {
+        Box::leak(vec_of(idx, 0, 0, N).into_boxed_slice())
+    }
+
+    /// the key (name nm, labels idx) built along path `p`
+    fn alt_key<const N: usize>(p: u8, nm: u8, idx: [u8; N]) -> Key {
+        match p {
+            0 => Key::from_parts(owned_name(nm), vec_of(idx, 1, 0, N)), // owned strings everywhere
+            1 => Key::from_parts(arc_name(nm), vec_of(idx, 2, 0, N)),   // Arc strings everywhere
+            2 => Key::from_static_labels(owned_name(nm), static_of(idx)), // what the macros emit for a dynamic name
+            3 => Key::from_name(kname(nm)).with_extra_labels(vec_of(idx, 1, 0, N)),
+            4 => {
+                // some labels first, the rest as extra labels
+                let cut = if N > 0 { N - 1 } else { 0 };
+                Key::from_parts(kname(nm), vec_of(idx, 0, 0, cut)).with_extra_labels(vec_of(idx, 2, cut, N))
+            }
+            5 => Key::from_static_parts(kname(nm), static_of(idx)).clone(), // clone before first get_hash
+            6 => {
+                let k = Key::from_static_parts(kname(nm), static_of(idx));
+                let _ = k.get_hash();
+                k.clone() // clone of a memoised key
+            }
+            7 => Key::from((arc_name(nm), vec_of(idx, 1, 0, N))), // From<(N, L)>
+            8 => {
+                let k = Key::from_parts(owned_name(nm), vec_of(idx, 2, 0, N));
+                Key::from_parts(kname(nm), k.labels()) // IntoLabels for slice::Iter (clones the labels)
+            }
+            9 => {
+                let (n, l) = Key::from_parts(arc_name(nm), vec_of(idx, 1, 0, N)).into_parts();
+                Key::from_parts(n, l) // into_parts round trip
+            }
+            _ => Key::from_static_parts(kname(nm), static_of(idx)).with_extra_labels(Vec::new()), // == clone
+        }
+    }
+    pub const NPATH: u8 = 11;
+
+    fn check_paths<const N: usize>(p: u8, nm: u8, idx: [u8; N]) {
+        kani::assume(p < NPATH && nm < NNAME);
+        let mut j = 0;
+        while j < N {
+            kani::assume(idx[j] < NLAB);
+            j += 1;
+        }
+        let r = Key::from_static_parts(kname(nm), static_of(idx));
+        let expect = gkh_rec(&r.name, &r.labels);
+        let k = alt_key(p, nm, idx);
+        assert!(k == r && r == k, "construction path does not matter for ==");
+        assert!(k.cmp(&r) == cmp::Ordering::Equal && r.cmp(&k) == cmp::Ordering::Equal, "... nor for cmp");
+        assert!(stream(&k).same(&stream(&r)), "... nor for Hash");
+        assert!(k.name() == kname(nm) && k.labels().len() == N);
+        let h1 = k.get_hash();
+        assert!(h1 == expect, "get_hash() is the hash of (name, labels) on every path");
+        assert!(k.get_hash() == h1 && k.clone().get_hash() == h1, "stable for the life of the key");
+        assert!(r.get_hash() == h1, "a == b implies get_hash() identical");
+        kani::cover!(p == 4);
+        kani::cover!(p == 10 && nm == 2);
+    }
+
+    #[kani::proof]
+    #[kani::unwind(4)]
+    #[kani::stub(super::generate_key_hash, gkh_rec)]
+    fn c03_paths_n2() {
+        check_paths::<2>(kani::any(), kani::any(), [kani::any(), kani::any()]);
+    }
+    #[kani::proof]
+    #[kani::unwind(4)]
+    #[kani::stub(super::generate_key_hash, gkh_rec)]
+    fn c03_paths_n01() {
+        if kani::any() {
+            check_paths::<0>(kani::any(), kani::any(), []);
+        } else {
+            check_paths::<1>(kani::any(), kani::any(), [kani::any()]);
+        }
+    }
+    #[kani::proof]
+    #[kani::unwind(5)]
+    #[kani::stub(super::generate_key_hash, gkh_rec)]
+    fn c03_paths_n3() {
+        check_paths::<3>(kani::any(), kani::any(), [kani::any(), kani::any(), kani::any()]);
+    }
+}
+
+// ------------------------------------------------------------------------------------------------ get_hash memo: rely/guarantee
+// Other threads run the same `get_hash` on the same key: each has executed some PREFIX of
+//     hash.store(h) ; hashed.store(true)
+// with the same h (h is a function of the immutable name/labels).  The stubs below let that environment advance at every
+// atomic access of the thread under check (sequential consistency; loop-free => all interleavings).
+#[cfg(kani)]
+pub mod rg {
+    use super::*;
+    static mut KEYP: *const Key = core::ptr::null();
+    static mut HVAL: u64 = 0;
+    static mut ENV: u8 = 0; // environment progress: 0 = nothing yet, 1 = hash stored, 2 = hashed stored as well
+    static mut OWN_HASH_STORED: bool = false;
+    static mut SLOW_PATHS: u8 = 0;
+
+    unsafe fn env_step() {
+        if KEYP.is_null() {
+            return;
+        }
+        let adv: u8 = kani::any();
+        if ENV == 0 && adv >= 1 {
+            *(*KEYP).hash.as_ptr() = HVAL;
+            ENV = 1;
+        }
+        if ENV == 1 && adv >= 2 {
+            *(*KEYP).hashed.as_ptr() = true;
+            ENV = 2;
+        }
+    }
+    fn is_shared_key(p: *const u8) -> bool {
+        unsafe { !KEYP.is_null() && (p == (*KEYP).hash.as_ptr() as *const u8 || p == (*KEYP).hashed.as_ptr() as *const u8) }
+    }
+    pub fn load_bool(a: &AtomicBool, _o: Ordering) -> bool {
+        unsafe {
+            env_step();
+            let v = *a.as_ptr();
+            env_step();
+            v
+        }
+    }
+    pub fn load_u64(a: &AtomicU64, _o: Ordering) -> u64 {
+        unsafe {
+            env_step();
+            let v = *a.as_ptr();
+            env_step();
+            v
+        }
+    }
+    pub fn store_u64(a: &AtomicU64, v: u64, _o: Ordering) {
+        unsafe {
+            env_step();
+            if is_shared_key(a.as_ptr() as *const u8) {
+                assert!(v == HVAL, "guarantee: only the deterministic hash is ever published");
+                OWN_HASH_STORED = true;
+            }
+            *a.as_ptr() = v;
+            env_step();
+        }
+    }
+    pub fn store_bool(a: &AtomicBool, v: bool, _o: Ordering) {
+        unsafe {
+            env_step();
+            if is_shared_key(a.as_ptr() as *const u8) {
+                assert!(v, "guarantee: hashed is only ever set");
+                assert!(OWN_HASH_STORED && *(*KEYP).hash.as_ptr() == HVAL, "guarantee: hashed is set only after hash");
+            }
+            *a.as_ptr() = v;
+            env_step();
+        }
+    }
+    /// contract of generate_key_hash used here: a function of (name, labels) -- the same value h on every call / thread
+    pub fn gkh_const(_name: &KeyName, _labels: &Cow<'static, [Label]>) -> u64 {
+        unsafe {
+            SLOW_PATHS += 1;
+            HVAL
+        }
+    }
+    static LABELS: [Label; 2] = [Label::from_static_parts("a", "1"), Label::from_static_parts("b", "2")];
+
+    #[kani::proof]
+    #[kani::unwind(3)]
+    #[kani::stub(core::sync::atomic::Atomic::<bool>::load, load_bool)]
+    #[kani::stub(core::sync::atomic::Atomic::<bool>::store, store_bool)]
+    #[kani::stub(core::sync::atomic::Atomic::<u64>::load, load_u64)]
+    #[kani::stub(core::sync::atomic::Atomic::<u64>::store, store_u64)]
+    #[kani::stub(super::generate_key_hash, gkh_const)]
+    fn c03_get_hash_memo_rg() {
+        let key = Key::from_static_parts("k", &LABELS); // the shared static key: hashed == false, hash == 0
+        let h: u64 = kani::any(); // any hash value, including 0 (== the initial content of `hash`)
+        unsafe {
+            HVAL = h;
+            KEYP = &key;
+            ENV = 0;
+        }
+        let r1 = key.get_hash(); // first use, racing with the others
+        assert!(r1 == h, "get_hash() returns the deterministic hash under every interference");
+        let env_at_1 = unsafe { ENV };
+        let slow_1 = unsafe { SLOW_PATHS };
+        let c = key.clone(); // a clone taken while others may still be publishing
+        let (c_hashed, c_hash) = unsafe { (*c.hashed.as_ptr(), *c.hash.as_ptr()) };
+        assert!(!c_hashed || c_hash == h, "clone never carries hashed == true with a stale hash");
+        let r2 = key.get_hash();
+        assert!(r2 == h, "same value for the whole life of the key");
+        unsafe {
+            assert!(*key.hashed.as_ptr() && *key.hash.as_ptr() == h, "after a completed call the memo is published");
+            KEYP = core::ptr::null(); // the clone is private to this thread
+        }
+        assert!(c.get_hash() == h);
+        kani::cover!(slow_1 == 0); // fast path: the others had finished before our first load
+        kani::cover!(slow_1 == 1 && env_at_1 == 2); // slow path with the others racing through both stores meanwhile
+        kani::cover!(slow_1 == 1 && env_at_1 == 0); // slow path, nobody else
+        kani::cover!(!c_hashed && c_hash == h && h != 0);
+    }
 }
